@@ -33,6 +33,14 @@ def populate(shape, variant):
     if variant == 5:
         # one node of the tree has been taken out of the registry (delete_node_instance(id, children=False)) before copying
         g["post"] = [["unregister", len(nodes) - 1]]
+    if variant in (6, 7):
+        # values a truthiness / isspace test would confuse with "no value"
+        edge = [" ", "", "\t\n", "\xa0", "0"]
+        for i, n in enumerate(nodes):
+            n["content"] = edge[(i + (0 if variant == 6 else 3)) % 5]
+            n["tail"] = edge[(i + (2 if variant == 6 else 1)) % 5]
+            n["attrs"] = [["k", edge[i % 5]], ["", "v"]]
+            n["extras"] = [["p:e", edge[(i + 1) % 5]]]
     if variant == 2:
         for n in nodes:
             n["attrs"] = []
@@ -114,6 +122,9 @@ def check_copy(g, cpath, acc):
     try:
         C2 = N.copy()
         C3 = C.copy()
+        objs = [id(x) for t_ in (T, C, C2, C3) for x in gtree.preorder(t_)]
+        if len(set(objs)) != len(objs):
+            bad("copy_shares_node", "the original, both copies and the copy of the copy share no node object", "shared object")
         all_ids = orig_ids + cids + [x.id for x in gtree.preorder(C2)] + [x.id for x in gtree.preorder(C3)]
         if len(set(all_ids)) != len(all_ids):
             bad("copy_ids_not_fresh", "ids of a second copy / a copy of the copy are fresh too", "collision")
@@ -139,7 +150,12 @@ def check_copy(g, cpath, acc):
             T0 = build(g)
             # labels depend on the node's state, compute on a fresh build
             C0 = node_at(T0, cpath).copy()
-            tnode = node_at(C0 if side == "copy" else T0, p)
+            try:
+                tnode = node_at(C0 if side == "copy" else T0, p)
+            except IndexError:
+                bad("copy_not_equal", {"path": list(p), "field": "children", "value": "a node at this path"}, "no such node in the copy",
+                    field="children")
+                continue
             labels = edits.labels(tnode)
             for lab in labels:
                 core.reset_store()
@@ -147,7 +163,12 @@ def check_copy(g, cpath, acc):
                 C1 = node_at(T1, cpath).copy()
                 other = T1 if side == "copy" else C1
                 snap_other = gtree.snap(other)
-                target = node_at(C1 if side == "copy" else T1, p)
+                try:
+                    target = node_at(C1 if side == "copy" else T1, p)
+                except IndexError:
+                    bad("copy_not_equal", {"path": list(p), "field": "children", "value": "a node at this path"},
+                        "no such node in the copy", field="children")
+                    continue
                 try:
                     edits.apply(target, lab)
                 except Exception as e:  # noqa
@@ -183,8 +204,8 @@ def explore(tier):
     maxn = 5 if tier == "quick" else 7
     items = []
     for s in gtree.shapes_upto(maxn):
-        for variant in (0, 1, 2, 3, 4, 5):
-            if variant >= 3 and gtree.gsize(s) < 2:
+        for variant in (0, 1, 2, 3, 4, 5, 6, 7):
+            if variant in (3, 4, 5) and gtree.gsize(s) < 2:
                 continue
             g = populate(s, variant)
             for path, _ in gtree.walk(g):
@@ -196,8 +217,9 @@ def explore(tier):
         "evaluations": n,
         "distinct_nontrivial": n - len(items),
         "exhaustive": True,
-        "rule": "every ordered tree shape up to N nodes x 3 field populations (all fields set with a namespace map shared by "
-                "the whole tree; the same with a re-declaration lower down; all fields empty) x every node as the copied node; "
+        "rule": "every ordered tree shape up to N nodes x 8 field populations (all fields set with a namespace map shared by "
+                "the whole tree; the same with a re-declaration lower down; all fields empty; prefix removed / map replaced on one "
+                "node; one node unregistered; blank / whitespace-only / '0' values in every text field) x every node as the copied node; "
                 "equality/freshness/registration/parent links of the copy, then every (side, node, edit) with the other side's "
                 "deep snapshot compared. Non-trivial = the edit cases.",
         "copies": len(items), "max_nodes": maxn,
